@@ -134,8 +134,9 @@ fn target_framebuf_update() {
 #[kani::unwind(6)]
 fn target_framebuf_rows() {
     let mut fb = Framebuf { color_buf: Buf2::<u32>::new((W as u32, H as u32)), depth_buf: Buf2::<F>::new((W as u32, H as u32)) };
-    // old depth 0: every fragment (z >= 0.001) passes the default Less test
+    // old depth 0 and a non-decreasing reciprocal depth along the span: every fragment (z >= 0.001) passes the default Less test
     let s = any_setup(H);
+    kani::assume(s.dz >= 0.0);
     let ctx = Context::default();
     let fs = |_f: Frag<()>| -> Option<Color4> { Some(rgba(1, 2, 3, 4)) };
     let io = fb.rasterize(scanline(&s), &fs, &ctx);
